@@ -58,6 +58,34 @@ def make(name, d, ls, rs=None, params=None, var=1.0, **kw):
         return getattr(gs, name)(**a)
 
 
+def resolve(params, ls):
+    """shape parameters given relative to len_scale -> absolute"""
+    if "len_low_rel" in params:
+        p = {k: v for k, v in params.items() if k != "len_low_rel"}
+        p["len_low"] = params["len_low_rel"] * ls
+        return p
+    return params
+
+
+def rescales(rng):
+    """rescale in {class default (None: not passed), < 1, > 1}: every function is exercised with all three"""
+    return [lu(rng, 0.3, 0.8), lu(rng, 1.3, 3.0), None]
+
+
+def pick_sets(name, psets, rng, n):
+    """rotating subset of the parameter sets; truncated power laws always keep one substantial lower cut-off of each size"""
+    if len(psets) <= n:
+        return psets
+    keep = []
+    if name in ("TPLGaussian", "TPLExponential"):
+        for rel in (0.4, 2.0):
+            c = [p for p in psets if p.get("len_low_rel") == rel]
+            keep.append(c[int(rng.integers(len(c)))])
+    rest = [p for p in psets if p not in keep]
+    idx = sorted(rng.choice(len(rest), size=max(n - len(keep), 1), replace=False))
+    return keep + [rest[i] for i in idx]
+
+
 def model_params(name, params):
     """(p1, p2) of the Gallina class"""
     if name in ("Matern", "Integral", "JBessel"):
@@ -81,9 +109,12 @@ def param_sets(name, d, rng, tier, for_probe=False):
         return [dict(nu=v) for v in fixed] + [dict(nu=d / 2 - 1 + lu(rng, 0.3, 20)) for _ in range(n_rand)]
     if name in ("TPLGaussian", "TPLExponential"):
         out = []
+        # len_low: 0, a tiny absolute value (the former isclose shortcut), and substantial cut-offs RELATIVE to len_scale
         for h in [0.11, 0.5, 0.9] + [float(rng.uniform(0.15, 0.95)) for _ in range(n_rand)]:
-            for low in ([0.0, 1e-9, 0.4] if tier == "quick" else [0.0, 1e-9, 0.4, 7.0]):
-                out.append(dict(hurst=h, len_low=low))
+            out.append(dict(hurst=h, len_low=0.0))
+            out.append(dict(hurst=h, len_low=1e-9))
+            for rel in ([0.4, 2.0] if tier == "quick" else [0.4, 2.0, 7.0]):
+                out.append(dict(hurst=h, len_low_rel=rel))
         return out
     if name == "Stable":
         return [dict(alpha=a) for a in [0.7, 1.5, 2.0] + [float(rng.uniform(0.7, 2.0)) for _ in range(n_rand)]]
@@ -236,6 +267,7 @@ def chk_corr(drv, case):
     name, d, ls, rs, params, fn, x = case["cls"], case["dim"], case["len_scale"], case["rescale"], case["params"], case["fn"], case["x"]
     var = case.get("var", 1.0)
     m = make(name, d, ls, rs, params, var=var)
+    rs = float(m.rescale) if rs is None else rs          # None: the class default (sqrt(pi)/2 for Gaussian, 1 otherwise)
     p1, p2 = model_params(name, params)
     args = (("n", ANALYTIC[name]), p1, p2, ("z", d), float(ls), float(rs))
     xa = np.array([x], dtype=float)
@@ -481,15 +513,18 @@ def correspondence(ctx, rng, drv):
     for name in ANALYTIC:
         for d in (1, 2, 3):
             psets = param_sets(name, d, rng, ctx.tier)
-            if quick and len(psets) > 6:
-                idx = rng.choice(len(psets), size=6, replace=False)
-                psets = [psets[i] for i in sorted(idx)]
-            for params in psets:
+            if quick:
+                psets = pick_sets(name, psets, rng, 6)
+            for params0, rs in [(p, r) for p in psets for r in rescales(rng)]:
+                # every function below is compared for rescale < 1, > 1 and the class default: len_rescaled = len_scale / rescale
+                # enters each of them separately, so a slip in a single function shows
                 ls = lu(rng, 0.02, 80.0)
-                rs = float(rng.choice([1.0, math.sqrt(math.pi) / 2, lu(rng, 0.3, 3.0)]))
+                params = resolve(params0, ls)
                 var = lu(rng, 0.1, 10.0)
-                l = ls / rs
+                l = ls / (rs if rs is not None else float(make(name, d, ls, None, params).rescale))
                 kls = [0.0, 3e-9 * l, 1e-8 * l, 1.5e-8 * l, 1e-6, 0.3, 0.6, 0.999999, 1.0, 1.000001, 2.5, 7.0, 30.0, -0.7, lu(rng, 1e-3, 50)]
+                if quick and (rs is None or rs > 1):     # the full list (mask edges, branch points) runs with rescale < 1
+                    kls = [0.0, 1e-6, 0.3, 1.0, 2.5, 30.0, -0.7]
                 for kl in kls:
                     x = kl / l
                     for fn in ("density", "pdf", "lnpdf", "spectrum"):
@@ -497,21 +532,21 @@ def correspondence(ctx, rng, drv):
                             continue
                         case = dict(kind="corr", cls=name, dim=d, len_scale=ls, rescale=rs, params=params, fn=fn, x=x, var=var)
                         ok, det = chk_corr(drv, case)
-                        ctx.count(("corr", name, d, fn, json.dumps(params, sort_keys=True), round(kl, 6)) if kl != 0.0 else None,
-                                  hist=dict(corr_fn=fn, cls=name, dim=d))
+                        ctx.count(("corr", name, d, fn, json.dumps(params, sort_keys=True), rs, round(kl, 6)) if kl != 0.0 else None,
+                                  hist=dict(corr_fn=fn, cls=name, dim=d, rescale=rs_kind(rs)))
                         if not ok:
                             report_corr(ctx, case, det)
                 if name in ("Gaussian", "Exponential"):
                     for x in [0.0, 1e-9 / l, 0.2 / l, 1.0 / l, 3.0 / l, 40.0 / l]:
                         case = dict(kind="corr", cls=name, dim=d, len_scale=ls, rescale=rs, params=params, fn="cdf", x=x)
                         ok, det = chk_corr(drv, case)
-                        ctx.count(("corr", name, d, "cdf", round(x * l, 6)), hist=dict(corr_fn="cdf", cls=name, dim=d))
+                        ctx.count(("corr", name, d, "cdf", rs, round(x * l, 6)), hist=dict(corr_fn="cdf", cls=name, dim=d, rescale=rs_kind(rs)))
                         if not ok:
                             report_corr(ctx, case, det)
                     for u in [0.0, 1e-9, 0.1, 0.5, 0.9, 1 - 1e-4, 1 - 5e-9, 1.0, float(rng.random())]:
                         case = dict(kind="corr", cls=name, dim=d, len_scale=ls, rescale=rs, params=params, fn="ppf", x=u)
                         ok, det = chk_corr(drv, case)
-                        ctx.count(("corr", name, d, "ppf", round(u, 9)), hist=dict(corr_fn="ppf", cls=name, dim=d))
+                        ctx.count(("corr", name, d, "ppf", rs, round(u, 9)), hist=dict(corr_fn="ppf", cls=name, dim=d, rescale=rs_kind(rs)))
                         if not ok:
                             report_corr(ctx, case, det)
                 else:
@@ -521,7 +556,7 @@ def correspondence(ctx, rng, drv):
                         ctx.count(None, hist=dict(corr_fn=fn, cls=name, dim=d))
                         if not ok:
                             report_corr(ctx, case, det)
-            ctx.sample(dict(stage="correspondence", cls=name, dim=d, params=psets[0]))
+            ctx.sample(dict(stage="correspondence", cls=name, dim=d, params=psets[0], rescales="<1, >1, class default"))
     # rad_fac incl. the general-dimension branch
     from gstools.covmodel.tools import rad_fac
     for d in (1, 2, 3, 4, 5, 7):
@@ -534,12 +569,17 @@ def correspondence(ctx, rng, drv):
                               dict(case=dict(kind="rad_fac", dim=d, r=r), impl=impl, model=mod), key="corr:rad_fac", no_input=(d > 3))
 
 
+def rs_kind(rs):
+    return "default" if rs is None else ("<1" if rs < 1 else ">1")
+
+
 def report_corr(ctx, case, det):
     """a disagreement between model and code: is the property itself broken on this input?  (Fourier probe at the same point)"""
     prop = None
     if case["fn"] in ("density", "spectrum", "pdf", "lnpdf") and case["cls"] != "JBessel":
         try:
-            kl = abs(case["x"]) * case["len_scale"] / case["rescale"]
+            rsv = case["rescale"] if case["rescale"] is not None else float(make(case["cls"], case["dim"], case["len_scale"], None, case["params"]).rescale)
+            kl = abs(case["x"]) * case["len_scale"] / rsv
             prop, _ = chk_ft(dict(kind="ft", cls=case["cls"], dim=case["dim"], len_scale=case["len_scale"], rescale=case["rescale"],
                                   params=case["params"], kl=kl, tol=T_ANALYTIC))
         except Exception:
@@ -561,12 +601,13 @@ def probes(ctx, rng):
         for d in (1, 2, 3):
             psets = param_sets(name, d, rng, ctx.tier, for_probe=True)
             if quick:
-                # rotating subset: two parameter sets per class and dim in the quick tier (all in thorough)
-                idx = sorted(rng.choice(len(psets), size=min(2, len(psets)), replace=False))
-                psets = [psets[i] for i in idx]
-            for params in psets:
+                # rotating subset in the quick tier (all in thorough): 2 parameter sets per class and dim, 3 for the truncated power
+                # laws (always one with len_low = 0.4 len_scale and one with 2 len_scale)
+                psets = pick_sets(name, psets, rng, 3 if name in ("TPLGaussian", "TPLExponential") else 2)
+            for i, params0 in enumerate(psets):
                 ls = lu(rng, 0.05, 50.0)
-                rs = float(rng.choice([1.0, lu(rng, 0.4, 2.5)]))
+                rs = rescales(rng)[i % 3]            # < 1, > 1, class default in turn: never only the default
+                params = resolve(params0, ls)
                 if name == "JBessel":
                     for rl in [0.0, 0.5, 2.0, 7.0, 20.0] + ([] if quick else [float(rng.uniform(0, 30)) for _ in range(3)]):
                         run_probe(ctx, dict(kind="jb_inverse", cls="JBessel", dim=d, len_scale=ls, rescale=rs, params=params, rl=rl, tol=T_ANALYTIC))
@@ -591,6 +632,7 @@ def probes(ctx, rng):
                         run_probe(ctx, dict(kind="ft", cls=name, dim=d, len_scale=ls, rescale=rs, params=params, kl=kl, tol=T_HANKEL),
                                   hist=dict(path="hankel-default-smallk"))
             ctx.sample(dict(stage="probe ft", cls=name, dim=d, params=psets[0]))
+            ctx.count(None, n=0, hist=dict(ft_sets_per_class_dim=len(psets)))
     if getattr(ctx, "skipped", 0):
         ctx.notes.append("%d transform cases skipped because model.correlation itself is not finite / not in [-1,1] on the quadrature nodes "
                          "(Integral with large non-integer nu next to r = 0: exp_int recursion; a C03 matter), e.g. %s" % (ctx.skipped, ctx.skip_example))
@@ -601,7 +643,7 @@ def probes(ctx, rng):
     cand = [(n, d) for n in ("Gaussian", "Exponential", "Matern", "Integral", "TPLGaussian", "TPLExponential", "HyperSpherical") for d in (1, 2, 3)]
     for i in rng.choice(len(cand), size=n_mp, replace=False):
         name, d = cand[i]
-        params = param_sets(name, d, rng, "quick", for_probe=True)[0]
+        params = resolve(param_sets(name, d, rng, "quick", for_probe=True)[0], 1.7)
         kl = float(rng.choice([0.0, 0.3, 1.0]))
         run_probe(ctx, dict(kind="ft", cls=name, dim=d, len_scale=1.7, rescale=1.0, params=params, kl=kl, tol=T_ANALYTIC, mp=True),
                   hist=dict(path="analytic-mpmath"))
@@ -611,31 +653,39 @@ def probes(ctx, rng):
             psets = [p for p in param_sets(name, d, rng, ctx.tier, for_probe=True)
                      if not (name == "Integral" and p["nu"] < 0.3) and not (name.startswith("TPL") and p["hurst"] < 0.15)]
             if quick:
-                psets = [psets[i] for i in sorted(rng.choice(len(psets), size=min(2, len(psets)), replace=False))]
-            for params in psets:
+                psets = pick_sets(name, psets, rng, 3 if name.startswith("TPL") else 2)
+            for i, params0 in enumerate(psets):
+                ls = lu(rng, 0.05, 50)
+                params = resolve(params0, ls)
                 # tail cut at e^260 / l: relative mass beyond is < 1e-19 for every exponent used here (quadrature ~1e-12) -> 1e-6;
                 # TPLExponential: the far-tail density is wrong beyond k*l ~ 1e7 (known finding); deviations up to 1e-3 of the
                 # mass are attributed to it (case_key), the pointwise transform probes cover k*l <= 100 at 1e-8
                 tol = 1e-6
-                run_probe(ctx, dict(kind="int_pdf", cls=name, dim=d, len_scale=lu(rng, 0.05, 50), rescale=1.0, params=params, tol=tol))
+                run_probe(ctx, dict(kind="int_pdf", cls=name, dim=d, len_scale=ls, rescale=rescales(rng)[i % 3], params=params, tol=tol),
+                          hist=dict(int_pdf_rescale=["<1", ">1", "default"][i % 3]))
     # ---- cdf / ppf
     for name in ("Gaussian", "Exponential"):
         for d in (1, 2, 3):
             for _ in range(1 if quick else 4):
-                run_probe(ctx, dict(kind="cdf_pdf", cls=name, dim=d, len_scale=lu(rng, 0.05, 50), rescale=float(rng.choice([1.0, lu(rng, 0.4, 2.5)])),
-                                    rl=[0.01, 0.3, 1.0, 2.5, float(rng.uniform(0.05, 4))], u=[1e-6, 0.1, 0.5, 0.9, float(rng.random()) * 0.98]))
+                for rs in rescales(rng):           # cdf' = pdf, limits, ppf o cdf, cdf o ppf with rescale < 1, > 1 and the default
+                    run_probe(ctx, dict(kind="cdf_pdf", cls=name, dim=d, len_scale=lu(rng, 0.05, 50), rescale=rs,
+                                        rl=[0.01, 0.3, 1.0, 2.5, float(rng.uniform(0.05, 4))], u=[1e-6, 0.1, 0.5, 0.9, float(rng.random()) * 0.98]),
+                              hist=dict(cdf_pdf_rescale=rs_kind(rs)))
     # ---- statement of the radial pdf and of the spectrum on every class (default path included)
     for name in all_names:
         for d in (1, 2, 3):
-            params = param_sets(name, d, rng, "quick", for_probe=True)[0]
-            run_probe(ctx, dict(kind="pdf_statement", cls=name, dim=d, len_scale=lu(rng, 0.05, 50), rescale=1.0, params=params, var=lu(rng, 0.1, 10),
-                                rl=[0.0, 5e-9, 2e-8, 1e-3, 0.5, 1.0, 4.0, -1.0, 30.0]))
+            ls = lu(rng, 0.05, 50)
+            params = resolve(param_sets(name, d, rng, "quick", for_probe=True)[0], ls)
+            for rs in rescales(rng)[:(2 if quick else 3)]:
+                run_probe(ctx, dict(kind="pdf_statement", cls=name, dim=d, len_scale=ls, rescale=rs, params=params, var=lu(rng, 0.1, 10),
+                                    rl=[0.0, 5e-9, 2e-8, 1e-3, 0.5, 1.0, 4.0, -1.0, 30.0]))
     # ---- far tail stays finite and below S(0)
     for name in ANALYTIC:
         for d in (1, 2, 3):
-            for params in param_sets(name, d, rng, "quick", for_probe=True)[:4]:
+            for i, params0 in enumerate(param_sets(name, d, rng, "quick", for_probe=True)[:4]):
+                ls = lu(rng, 0.05, 50)
                 for kl in (1e4, 1e6, 1e7, 1e9, 1e12):
-                    run_probe(ctx, dict(kind="tail_finite", cls=name, dim=d, len_scale=lu(rng, 0.05, 50), rescale=1.0, params=params, kl=kl))
+                    run_probe(ctx, dict(kind="tail_finite", cls=name, dim=d, len_scale=ls, rescale=rescales(rng)[i % 3], params=resolve(params0, ls), kl=kl))
 
 
 def run(ctx):
